@@ -36,6 +36,13 @@ def cases(chk: common.Check) -> list[dict]:
     # the function returns at once but the process takes 4.5 s to exit (a non-daemon thread): awaiting the handle yields only then
     cs.append({'func': 'linger', 'args': [4.5], 'logging': False, 'classes': ['returned 1'], 'timeout': 30})
     cs.append({'func': 'linger', 'args': [4.5], 'logging': True, 'classes': ['returned 1'], 'timeout': 30})
+    # the function has returned but the process lingers: kill/terminate from another task while the handle is being awaited must get
+    # through at once (the event loop is not blocked by the wait for the process)
+    for lg in (False, True):
+        for kind, signo in (('kill', 9), ('terminate', 15)):
+            # (the value had already been returned when the signal arrived: the outcome is the value, the exit code that of the signal)
+            cs.append({'func': 'linger', 'args': [8.0], 'logging': lg, 'signal': {'kind': kind, 'at': 1.0}, 'classes': ['returned 1'],
+                       'timeout': 30, 'prompt_signal': True, 'exitcode': -signo})
     instants = [0.0, 0.12, 0.3] if chk.tier == 'quick' else [0.0, 0.02, 0.05, 0.08, 0.12, 0.2, 0.3, 0.35, 0.4]
     for kind, signo in (('interrupt', 2), ('terminate', 15), ('kill', 9)):
         for at in instants:
@@ -127,6 +134,11 @@ def run(chk: common.Check) -> None:
                 msgs.append('creation time is after exit time')
             if res.get('signal_error'):
                 msgs.append(f"a signal request raised: {res['signal_error']}")
+            if 'exitcode' in spec and res['exitcode'] != spec['exitcode']:
+                msgs.append(f"exit code {res['exitcode']}, expected {spec['exitcode']}")
+            if spec.get('prompt_signal') and (res.get('signal_sent_late_by') is None or res['signal_sent_late_by'] > 2.5):
+                msgs.append(f"a {spec['signal']['kind']} request from another task, due {spec['signal']['at']} s after the start, could be issued only "
+                            f"{res.get('signal_sent_late_by')} s late: the event loop was blocked while the handle was awaited")
             allowed = spec['classes']
             ok_cls = cls in allowed or (cls == 'raisedOrPickling' and any(a in ('returned 0', 'raised 0') for a in allowed))
             if not ok_cls:
